@@ -205,3 +205,30 @@ func VerifHarness_C17_ValidateEvery() {
 	verifReach("validated")
 	verifAssert("unusable-settings-are-reported-at-every-position", (err != nil) == (faultyAt < n))
 }
+
+// VerifHarness_C09_RenderFiles: rendering the output files of a run - several files in one directory, their
+// converters agreeing on the package or not - gives the same files or the same diagnostic whatever the iteration
+// order of the map the files are kept in.
+func VerifHarness_C09_RenderFiles() {
+	m := &fileManager{Files: map[string]*managedFile{}}
+	names := []string{"a.go", "b.go", "c.go", "d.go"}
+	n := 2 + nondetChoice("files", 3)
+	for i := 0; i < n; i++ {
+		name := []string{"alpha", "beta"}[nondetChoice("package-name", 2)]
+		conv := &config.Converter{Location: "in.go:" + names[i]}
+		conv.Name = "Conv" + names[i][:1]
+		conv.OutputFile = "/work/out/" + names[i]
+		conv.OutputPackagePath = "example.org/out"
+		conv.OutputPackageName = name
+		m.Files["/work/out/"+names[i]] = &managedFile{PackageID: conv.PackageID(), Initial: conv, Content: jen.NewFilePathName(conv.OutputPackagePath, name)}
+	}
+	r1, e1 := m.renderFiles()
+	r2, e2 := m.renderFiles()
+	verifReach("rendered-twice")
+	verifAssert("both-runs-agree-on-failure", (e1 == nil) == (e2 == nil))
+	if e1 != nil && e2 != nil {
+		verifAssert("same-diagnostic-under-every-iteration-order", e1.Error() == e2.Error())
+		return
+	}
+	verifAssert("every-file-rendered", len(r1) == n && len(r2) == n)
+}
